@@ -87,8 +87,25 @@ def transforms(thorough):
 
 
 def contributions(result, f, adm):
-    """per element: its impedance (series model) or admittance (parallel model) over f"""
-    return np.array([e.get_impedances(f) ** (-1 if adm else 1) for e in result.circuit.get_elements(recursive=True)])
+    """per element: its impedance (series model) or admittance (parallel model) over f; an element the library reports as open
+    (InfiniteImpedance, e.g. the parallel resistance when its fitted conductance is exactly 0) has infinite impedance / zero admittance"""
+    from pyimpspec.exceptions import InfiniteImpedance
+    rows = []
+    for e in result.circuit.get_elements(recursive=True):
+        try:
+            Ze = np.asarray(e.get_impedances(f), dtype=complex)
+        except InfiniteImpedance:
+            Ze = np.full(len(f), complex(np.inf, 0.0))
+        with np.errstate(all="ignore"):
+            rows.append(1 / Ze if adm else Ze)
+    return np.array(rows)
+
+
+def observe(call, ff, ZZ, adm):
+    """ALL library calls of one run (the test itself and reading its result); raises whatever the library raises"""
+    r = call(ff, ZZ)
+    return {"residuals": np.asarray(r.residuals), "pseudo_chisqr": float(r.pseudo_chisqr), "frequencies": np.asarray(r.frequencies),
+            "time_constants": np.asarray(r.time_constants), "contributions": contributions(r, r.frequencies, adm)}
 
 
 def arr(x):
@@ -96,22 +113,40 @@ def arr(x):
 
 
 def repro_src(f, Z, kind, c, kw, observable):
-    return f'''import numpy as np, pyimpspec
+    return f'''import sys
+import numpy as np, pyimpspec
+from pyimpspec.exceptions import InfiniteImpedance
 f = {arr(f)}
 Z = {arr(Z)}
 kw = dict({", ".join(f"{k}={v!r}" for k, v in kw.items())}, num_F_ext_evaluations=0, num_procs=1)
-base = pyimpspec.perform_kramers_kronig_test(pyimpspec.DataSet(f, Z), **kw)
-f2, Z2 = {{"zscale": (f, {c!r} * Z), "fscale": ({c!r} * f, Z), "reversed": (f[::-1], Z[::-1])}}[{kind!r}]
-other = pyimpspec.perform_kramers_kronig_test(pyimpspec.DataSet(f2, Z2), **kw)
-d = other.residuals - base.residuals
-dres = max(np.abs(d.real).max(), np.abs(d.imag).max())
-dchi = abs(np.log10(other.pseudo_chisqr) - np.log10(base.pseudo_chisqr))
 adm = kw["admittance"]
-cb = np.array([e.get_impedances(f) ** (-1 if adm else 1) for e in base.circuit.get_elements(recursive=True)])
-co = np.array([e.get_impedances(f2 if {kind!r} == "fscale" else f) ** (-1 if adm else 1) for e in other.circuit.get_elements(recursive=True)])
+def contributions(r, ff):
+    rows = []
+    for e in r.circuit.get_elements(recursive=True):
+        try:
+            Ze = np.asarray(e.get_impedances(ff), dtype=complex)
+        except InfiniteImpedance:
+            Ze = np.full(len(ff), complex(np.inf, 0.0))
+        with np.errstate(all="ignore"):
+            rows.append(1 / Ze if adm else Ze)
+    return np.array(rows)
+def run(ff, ZZ):
+    r = pyimpspec.perform_kramers_kronig_test(pyimpspec.DataSet(ff, ZZ), **kw)
+    return r, np.asarray(r.residuals), float(r.pseudo_chisqr), np.asarray(r.time_constants), contributions(r, r.frequencies)
+try:
+    base, rb, chib, taub, cb = run(f, Z)
+except Exception as ex:
+    print("the reference run itself raises", type(ex).__name__, ex, "- nothing to compare")
+    sys.exit(0)
+f2, Z2 = {{"zscale": (f, {c!r} * Z), "fscale": ({c!r} * f, Z), "reversed": (f[::-1], Z[::-1])}}[{kind!r}]
+other, ro, chio, tauo, co = run(f2, Z2)      # an exception here reproduces the violation: the reference run completed
+d = ro - rb
+dres = max(np.abs(d.real).max(), np.abs(d.imag).max())
+dchi = abs(np.log10(chio) - np.log10(chib))
 exp = cb * (({c!r} ** (-1 if adm else 1)) if {kind!r} == "zscale" else 1.0)
-dpar = (np.abs(co - exp) / np.abs(exp.sum(axis=0))).max()
-dtau = np.abs(other.time_constants * ({c!r} if {kind!r} == "fscale" else 1.0) / base.time_constants - 1).max()
+with np.errstate(all="ignore"):
+    dpar = (np.where(np.isinf(co) & (co == exp), 0.0, np.abs(co - exp)) / np.abs(exp.sum(axis=0))).max()
+dtau = np.abs(tauo * ({c!r} if {kind!r} == "fscale" else 1.0) / taub - 1).max()
 print("delta residual", dres, " delta log10 chi2", dchi, " parameter contributions", dpar, " time constants", dtau)
 assert dres <= {TOL_RES!r} and dchi <= {TOL_CHI!r} and dpar <= {TOL_PAR!r} and dtau <= {TOL_TAU!r}, {observable!r}
 '''
@@ -129,12 +164,12 @@ def run_variant(arg):
     def call(ff, ZZ):
         return pyimpspec.perform_kramers_kronig_test(pyimpspec.DataSet(ff, ZZ), num_F_ext_evaluations=0, num_procs=1, **kw)
     try:
-        base = call(f, Z)
-    except Exception as ex:  # noqa  -- not this property's subject (C18); nothing to compare
-        return [{"key": (name, test, adm, addC, addL, lf, "base"), "nontrivial": False, "fails": [], "m": None, "note": f"base run raised {type(ex).__name__}"}]
-    fb = base.frequencies
-    cb = contributions(base, fb, adm)
-    nontrivial = bool(np.abs(base.residuals).max() > 1e-9)
+        base = observe(call, f, Z, adm)
+    except Exception as ex:  # noqa  -- the reference run itself fails: not this property's subject (C18); nothing to compare
+        return [{"key": (name, test, adm, addC, addL, lf, "reference"), "nontrivial": False, "fails": [], "m": None,
+                 "note": f"reference run raised {type(ex).__name__}: {str(ex)[:120]}"}]
+    cb = base["contributions"]
+    nontrivial = bool(np.abs(base["residuals"]).max() > 1e-9)
     for kind, c in tfs:
         rec = {"key": (name, test, adm, addC, addL, lf, kind, c), "nontrivial": nontrivial, "fails": [], "m": None, "kind": kind, "c": c,
                "variant": (test, xy, cols)}
@@ -143,26 +178,28 @@ def run_variant(arg):
         how = {"zscale": f"impedances multiplied by {c:g}", "fscale": f"frequencies multiplied by {c:g}", "reversed": "points supplied in the opposite order"}[kind]
         fn = "matrix_inversion._test_wrapper" if test.endswith("-inv") else "least_squares._test_wrapper"
         try:
-            other = call(f2, Z2)
-        except Exception as ex:  # noqa
-            rec["fails"].append((f"{label}:{cols}:{test}:{xy}:exception:{type(ex).__name__}", "perform_kramers_kronig_test",
-                                 f"{cfg}: with {how} the test raised {type(ex).__name__}: {ex} (the untransformed spectrum ran)", repro_src(f, Z, kind, c, kw, "exception")))
+            other = observe(call, f2, Z2, adm)
+        except Exception as ex:  # noqa  -- the verdict depends on the units: the reference run completed, this one raises
+            rec["fails"].append((f"{label}:{cols}:{test}:{xy}:raises {type(ex).__name__}", "perform_kramers_kronig_test",
+                                 f"{cfg}: with {how} the test (or reading its result) raised {type(ex).__name__}: {str(ex)[:300]}, while the untransformed spectrum ran to completion",
+                                 repro_src(f, Z, kind, c, kw, f"raises {type(ex).__name__}")))
             recs.append(rec)
             continue
-        d = other.residuals - base.residuals
-        dres = float(max(np.abs(d.real).max(), np.abs(d.imag).max())) if d.shape == base.residuals.shape else float("inf")
-        dchi = float(abs(np.log10(other.pseudo_chisqr) - np.log10(base.pseudo_chisqr)))
-        co = contributions(other, other.frequencies, adm)
-        exp = cb * ((c ** (-1 if adm else 1)) if kind == "zscale" else 1.0)
-        dpar = float((np.abs(co - exp) / np.abs(exp.sum(axis=0))).max()) if co.shape == exp.shape else float("inf")
-        tb, to = base.time_constants, other.time_constants
-        dtau = float(np.abs(to * (c if kind == "fscale" else 1.0) / tb - 1).max()) if tb.shape == to.shape else float("inf")
+        with np.errstate(all="ignore"):
+            d = other["residuals"] - base["residuals"] if other["residuals"].shape == base["residuals"].shape else None
+            dres = float(max(np.abs(d.real).max(), np.abs(d.imag).max())) if d is not None else float("inf")
+            dchi = float(abs(np.log10(other["pseudo_chisqr"]) - np.log10(base["pseudo_chisqr"])))
+            co = other["contributions"]
+            exp = cb * ((c ** (-1 if adm else 1)) if kind == "zscale" else 1.0)
+            dpar = float((np.where(np.isinf(co) & (co == exp), 0.0, np.abs(co - exp)) / np.abs(exp.sum(axis=0))).max()) if co.shape == exp.shape else float("inf")
+            tb, to = base["time_constants"], other["time_constants"]
+            dtau = float(np.abs(to * (c if kind == "fscale" else 1.0) / tb - 1).max()) if tb.shape == to.shape else float("inf")
         rec["m"] = (dres, dchi, dpar, dtau)
         bad = None
         if not dres <= TOL_RES:
-            bad = ("residuals", f"relative residuals change by {dres:.3e} (allowed {TOL_RES:g}); pseudo_chisqr {base.pseudo_chisqr:.4e} -> {other.pseudo_chisqr:.4e}")
+            bad = ("residuals", f"relative residuals change by {dres:.3e} (allowed {TOL_RES:g}); pseudo_chisqr {base['pseudo_chisqr']:.4e} -> {other['pseudo_chisqr']:.4e}")
         elif not dchi <= TOL_CHI:
-            bad = ("pseudo_chisqr", f"log10 pseudo_chisqr changes by {dchi:.3e} (allowed {TOL_CHI:g}): {base.pseudo_chisqr:.6e} -> {other.pseudo_chisqr:.6e}")
+            bad = ("pseudo_chisqr", f"log10 pseudo_chisqr changes by {dchi:.3e} (allowed {TOL_CHI:g}): {base['pseudo_chisqr']:.6e} -> {other['pseudo_chisqr']:.6e}")
         elif not dpar <= TOL_PAR:
             bad = ("parameters", f"fitted R/C/L do not rescale: an element's immittance changes by {dpar:.3e} of the total (allowed {TOL_PAR:g})")
         elif not dtau <= TOL_TAU:
@@ -231,7 +268,7 @@ def main(a):
         if v == "all" or w[0] > TOL_RES / 100 or w[1] > TOL_CHI / 100 or w[2] > TOL_PAR / 100:
             res.part(f"measured:{t}:{v}", n=w[4], max_d_residual=w[0], max_d_log10_chisqr=w[1], max_d_parameters=w[2], max_d_tau=w[3])
     if notes:
-        res.part("base-runs-that-raised", cases=notes[:20])
+        res.part("reference-runs-that-raised", count=len(notes), cases=notes[:20])
     return res
 
 
